@@ -182,7 +182,25 @@ func crashNow() {
 	panic(crashSentinel{})
 }
 
-func perr(op, path string) error { return &fs.PathError{Op: op, Path: path, Err: ErrInjected} }
+func perr(op, path string) error {
+	mu.Lock()
+	e := failErr
+	mu.Unlock()
+	if e == nil {
+		e = ErrInjected
+	}
+	return &fs.PathError{Op: op, Path: path, Err: e}
+}
+
+var failErr error
+
+// SetFailErr chooses the error that injected failures carry (nil: ErrInjected), e.g. syscall.ENOENT for an open that finds
+// a directory missing.
+func SetFailErr(e error) {
+	mu.Lock()
+	failErr = e
+	mu.Unlock()
+}
 
 // ---- File ----
 
